@@ -359,3 +359,23 @@ Definition release_ok (fn rel : string) : bool :=
   || existsb (fun c => String.eqb rel ("explicit-with-calls:" ++ c)) tolerated_under_lock.
 
 Definition locks_released : bool := forallb (fun e => release_ok (fst (fst e)) (snd e)) lock_sites_alpha.
+
+(** ---- C04, requests in flight together: the premise of Server/OpenPar.v, read from the source
+    semantically (no local names, no statement text): in tlopen.handle the lock of the fidRef's openMu and
+    its deferred unlock come BEFORE the first test that reads the fidRef's [opened] field, which comes
+    before the File.Open call. ---- *)
+Fixpoint has_sub (p s : string) : bool :=
+  prefix p s || match s with String _ r => has_sub p r | EmptyString => false end.
+Fixpoint first_idx (f : string -> bool) (l : list string) (i : nat) : option nat :=
+  match l with [] => None | x :: r => if f x then Some i else first_idx f r (S i) end.
+Definition trace_in (fn : string) (t : list (string * list string)) : list string :=
+  match find (fun e => String.eqb (fst e) fn) t with Some e => snd e | None => [] end.
+Definition tlopen_lock_first_in (t : list (string * list string)) : bool :=
+  let tr := trace_in "tlopen.handle" t in
+  match first_idx (fun e => prefix "lock:" e && has_sub ".openMu.Lock" e) tr 0,
+        first_idx (fun e => prefix "defer:" e && has_sub ".openMu.Unlock" e) tr 0,
+        first_idx (fun e => prefix "if:" e && has_sub ".opened" e) tr 0,
+        first_idx (fun e => prefix "call:" e && has_sub ".file.Open(" e) tr 0 with
+  | Some a, Some b, Some c, Some d => Nat.ltb a b && Nat.ltb b c && Nat.ltb c d
+  | _, _, _, _ => false
+  end.
